@@ -65,6 +65,7 @@ func buildAlphabet() []opSpec {
 		{Name: "M", Kind: 'M'},
 		vop(1, 'n', true, false),
 		vop(2, 'n', false, false),
+		vop(1, 'r', false, false),
 		vop(1, 's', true, false),
 		vop(6, 'n', true, true),
 		vop(3, 'z', true, false),
@@ -83,7 +84,7 @@ func buildAlphabet() []opSpec {
 	for _, k := range []struct {
 		r    uint32
 		root byte
-	}{{1, 'n'}, {1, 's'}, {2, 'n'}, {6, 'n'}, {3, 'z'}} {
+	}{{1, 'n'}, {1, 's'}, {2, 'n'}, {6, 'n'}, {3, 'z'}, {1, 'r'}, {6, 'r'}} {
 		for _, g := range []bool{true, false} {
 			for _, t := range []bool{false, true} {
 				o := vop(k.r, k.root, g, t)
@@ -103,9 +104,9 @@ func buildAlphabet() []opSpec {
 // execution therefore examines every intermediate state too (each block boundary of each execution).
 func layers(tier string) [][2]int {
 	if tier == "thorough" {
-		return [][2]int{{1, 22}, {2, 22}, {3, 22}, {4, 10}, {5, 6}, {6, 4}, {7, 2}}
+		return [][2]int{{1, 30}, {2, 30}, {3, 30}, {4, 11}, {5, 7}, {6, 4}, {7, 2}}
 	}
-	return [][2]int{{1, 22}, {2, 22}, {3, 13}, {4, 6}, {5, 3}, {6, 2}}
+	return [][2]int{{1, 30}, {2, 30}, {3, 14}, {4, 7}, {5, 3}, {6, 2}}
 }
 
 type params struct{ Ops []int }
@@ -188,6 +189,9 @@ type world struct {
 	leaves    []l1infotreesync.L1InfoTreeLeaf
 	applied   []appliedUpdate
 	held      map[uint32]ref.Hash // rollup id → last non-zero exit root verified
+	before    map[uint32]ref.Hash // rollup id → the value it held before the current one
+	treeRoots map[ref.Hash]bool   // every root the rollup exit tree has had
+	returns   int
 	initial   *l1infotreesync.L1InfoTreeInitial
 	blocks    []uint64 // processed block numbers
 	announced int      // V2 announcements processed
@@ -203,7 +207,7 @@ type blockBuilder struct {
 }
 
 func newWorld() *world {
-	return &world{l1: ref.NewL1(), nNew: map[uint32]uint64{}, held: map[uint32]ref.Hash{}}
+	return &world{l1: ref.NewL1(), nNew: map[uint32]uint64{}, held: map[uint32]ref.Hash{}, before: map[uint32]ref.Hash{}, treeRoots: map[ref.Hash]bool{}}
 }
 
 func (w *world) newBlock() *blockBuilder {
@@ -236,6 +240,28 @@ func (w *world) apply(b *blockBuilder, o opSpec) {
 			root = h("local-exit-root", uint64(o.Rollup), w.nNew[o.Rollup])
 		case 's':
 			root = w.l1.RollupIDToLastExitRoot[o.Rollup]
+		case 'r':
+			// back to the value the rollup had before its current one — but only when the rollup exit tree
+			// as a whole has not looked like that before (another rollup changed in between); otherwise a new value
+			root = w.before[o.Rollup]
+			if root != (ref.Hash{}) {
+				m := ref.NewMerkle()
+				for id, v := range w.held {
+					if id != o.Rollup {
+						m.Set(id-1, v)
+					}
+				}
+				m.Set(o.Rollup-1, root)
+				if w.treeRoots[m.Root()] {
+					root = ref.Hash{}
+				}
+			}
+			if root == (ref.Hash{}) {
+				w.nNew[o.Rollup]++
+				root = h("local-exit-root", uint64(o.Rollup), w.nNew[o.Rollup])
+			} else {
+				w.returns++
+			}
 		}
 		evs = w.l1.VerifyBatches(o.Rollup, numBatches[int(i)%len(numBatches)], root, h("state-root", i), o.GER, o.Trusted,
 			addr("aggregator", i), ctx)
@@ -271,6 +297,7 @@ func (w *world) apply(b *blockBuilder, o opSpec) {
 			case w.held[ev.RollupID] == ev.ExitRoot:
 				w.skippedSame++
 			default:
+				w.before[ev.RollupID] = w.held[ev.RollupID]
 				w.held[ev.RollupID] = ev.ExitRoot
 				m := ref.NewMerkle()
 				snap := map[uint32]ref.Hash{}
@@ -279,9 +306,10 @@ func (w *world) apply(b *blockBuilder, o opSpec) {
 					snap[id] = v
 				}
 				want := m.Root()
+				w.treeRoots[want] = true
 				if want != w.l1.RollupExitRoot() {
-					// alphabet restriction: exit roots never return to zero or an earlier value, so the
-					// tree of last non-zero roots IS the rollup manager's tree
+					// alphabet restriction: exit roots never return to zero (and to an earlier value only when
+					// the tree as a whole is new), so the tree of last non-zero roots IS the rollup manager's tree
 					panic("c11: reference rollup exit tree differs from the rollup manager's")
 				}
 				w.applied = append(w.applied, appliedUpdate{Row: l1infotreesync.VerifyBatches{BlockNumber: b.hdr.Num,
@@ -625,6 +653,7 @@ func run(c *mc.Ctx, u mc.Unit) {
 		}
 	}
 	wit(len(w.leaves) >= 2, "executions_with_2+_info_leaves")
+	wit(w.returns > 0, "executions_with_an_exit_root_returning_to_an_earlier_value")
 	wit(w.announced > 0, "executions_with_checked_root_announcements")
 	wit(w.gerSeen > 0, "executions_with_ger_update_not_adding_a_leaf")
 	wit(len(w.applied) >= 2, "executions_with_2+_applied_rollup_updates")
@@ -649,14 +678,14 @@ func main() {
 		MaxEvalsPerProcess: 2500, // every store construction leaks descriptors (RunMigrations keeps a handle)
 		Run:                run,
 		Setup:              setup,
-		Rule: "unit = one sequence of L1 transactions over the alphabet (M = mainnet-root update; V<rollup><n|s|z><+|-><T> = verify batches of " +
-			"the rollup with a new / the same / a zero exit root, with / without GER update, T = trusted-aggregator variant; I = initial root " +
+		Rule: "unit = one sequence of L1 transactions over the alphabet (M = mainnet-root update; V<rollup><n|s|z|r><+|-><T> = verify batches of " +
+			"the rollup with a new / the same / a zero / (r) its previous exit root (only if the whole tree is then new), with / without GER update, T = trusted-aggregator variant; I = initial root " +
 			"announcement); choice point before every transaction but the first: same block or new block (every composition into blocks); " +
 			"the full oracle runs at the end of every execution; layers are nested, so every intermediate state (block boundary) of an " +
 			"execution is the final state of a unit of a shorter layer and gets the full oracle there. " +
 			"non-trivial = every execution; distinct = distinct (unit, composition, observation)",
 		Assumptions: []string{
-			"alphabet restriction (DESIGN C11): a rollup's exit root never returns to zero or to an earlier value",
+			"alphabet restriction (DESIGN C11): a rollup's exit root never returns to zero, and returns to an earlier value (letter r) only when another rollup changed in between, i.e. the rollup exit tree as a whole never repeats a root (root.hash is a primary key)",
 			"the contracts are modelled by ref.L1; cmd/evmconf binds that model and the log packer to the real bytecode (state and logs byte for byte)",
 			"block timestamps and batch numbers stay below 2^63 (SQLite INTEGER columns)",
 			"queries for absent things must fail; which error they fail with is not part of the property",
